@@ -704,6 +704,66 @@ class Program(object):
         cache[key] = out
         return out
 
+    def inert_attrs(self, ci):
+        """attributes of class ci that only observe (statistics, counters): every read of the attribute in the class is
+        either inside the statement that updates the attribute itself (`self.a += e`, `self.a = self.a + e`,
+        `self.a[k] = self.a.get(k, 0) + 1`), an argument of a logging call, or in a reporting method - a method without
+        writes that nothing in the package refers to by name (a public getter).  No decision of the class can depend on
+        such an attribute."""
+        cache = self.__dict__.setdefault('_inert', {})
+        if ci.name in cache:
+            return cache[ci.name]
+        referenced = set()
+        referenced_strings = set()
+        for m in self.modules.values():
+            for n in ast.walk(m.tree):
+                if isinstance(n, ast.Attribute):
+                    referenced.add(n.attr)
+                elif isinstance(n, ast.Constant) and isinstance(n.value, str):
+                    referenced.add(n.value)
+                    referenced_strings.add(n.value)
+        reads, written = {}, set()
+        for f in self.methods_of(ci):
+            sn = f.self_name
+            if sn is None:
+                continue
+            reporting = f.node.name not in referenced and not f.node.name.startswith('__') or False
+            if reporting:
+                for n in ast.walk(f.node):
+                    if isinstance(n, (ast.Assign, ast.AugAssign, ast.Delete)):
+                        for t in (n.targets if isinstance(n, (ast.Assign, ast.Delete)) else [n.target]):
+                            if any(self.self_attr(x, sn) for x in ast.walk(t)):
+                                reporting = False
+            exempt = set()
+            for n in ast.walk(f.node):
+                if isinstance(n, (ast.Assign, ast.AugAssign)):
+                    ts = n.targets if isinstance(n, ast.Assign) else [n.target]
+                    if len(ts) == 1:
+                        t = ts[0]
+                        base = t.value if isinstance(t, ast.Subscript) else t
+                        a = self.self_attr(base, sn)
+                        if a:
+                            written.add(a)
+                            for x in ast.walk(n):
+                                if self.self_attr(x, sn) == a:
+                                    exempt.add(id(x))
+                elif isinstance(n, ast.Call) and isinstance(n.func, ast.Attribute) and isinstance(n.func.value, ast.Name) and n.func.value.id in ('logger', 'logging'):
+                    for x in ast.walk(n):
+                        exempt.add(id(x))
+            if reporting:
+                for n in ast.walk(f.node):
+                    exempt.add(id(n))
+            all_exempt = self.__dict__.setdefault('_inert_exempt', set())
+            all_exempt |= exempt
+        all_exempt = self.__dict__.setdefault('_inert_exempt', set())
+        for m in self.modules.values():
+            for n in ast.walk(m.tree):
+                if isinstance(n, ast.Attribute) and isinstance(n.ctx, ast.Load) and id(n) not in all_exempt:
+                    reads.setdefault(n.attr, []).append(m)
+        out = set(a for a in written if a not in reads and not any(a.lstrip('_') and a.lstrip('_') in t for t in referenced_strings))
+        cache[ci.name] = out
+        return out
+
     def callers_of(self, target):
         """[(func, call node)] for all resolved call sites of target in the package"""
         out = []
